@@ -13,7 +13,7 @@ import (
 )
 
 func init() {
-	register(&Rule{ID: "CMD-1", Props: []string{"C04", "C07", "C13", "C19", "C05"}, Floor: 3,
+	register(&Rule{ID: "CMD-1", Props: []string{"C04", "C07", "C13", "C19", "C05", "C01"}, Floor: 3,
 		Doc: "rejection funnel: every error return of the dispatch function is preceded by the error and the usage on stdErr and then by the policy switch with that error on the rejecting command; no hook ran; callers propagate the result unchanged", Run: cmd1})
 	register(&Rule{ID: "CMD-2", Props: []string{"C05", "C07", "C14"}, Floor: 9,
 		Doc: "policy switch, evaluated for 3 error classes x 3 policies: sentinels exit 0 / return; errors exit 2 / panic(err) / return; exiter and os.Exit appear nowhere else", Run: cmd2})
@@ -27,11 +27,11 @@ func init() {
 		Doc: "routing: a child is entered only after doInit (error: panic) and isAlias(token) on that child, with exactly the tokens after the alias; the level's own tokens args[:n] are validated first (except on the help descent); fsm is assigned only in doInit", Run: cmd6})
 	register(&Rule{ID: "CMD-7", Props: []string{"C04"}, Floor: 3,
 		Doc: "level split: number of tokens before the first alias of a direct sub-command; isAlias ranges over all aliases; aliases = strings.Fields(name)", Run: cmd7})
-	register(&Rule{ID: "CMD-8", Props: []string{"C04", "C05", "C07"}, Floor: 1,
+	register(&Rule{ID: "CMD-8", Props: []string{"C04", "C05", "C07", "C01"}, Floor: 1,
 		Doc: "one start: a single Step.Run call, outside loops, on the entry step with nil, only when no token is left and an Action exists, followed by return nil", Run: cmd8})
 	register(&Rule{ID: "CMD-9", Props: []string{"C07", "C08"}, Floor: 4,
 		Doc: "spec errors are fatal: every doInit() result is compared with nil and panicked on the non-nil edge", Run: cmd9})
-	register(&Rule{ID: "CMD-10", Props: []string{"C04", "C16", "C08", "C03"}, Floor: 6,
+	register(&Rule{ID: "CMD-10", Props: []string{"C04", "C16", "C08", "C03", "C01"}, Floor: 6,
 		Doc: "implicit spec: Spec is written only in doInit, only when empty: \"[OPTIONS] \" iff an option exists, then each argument name + blank in list order; the scanner and the parser get that Spec and the command's own declarations; the result is stored in fsm", Run: cmd10})
 	register(&Rule{ID: "CMD-11", Props: []string{"C07", "C14", "C17"}, Floor: 10,
 		Doc: "output discipline: every Fprint* of the root package goes to stdErr/stdOut or a writer built on them; no Print*, no os.Stdout/os.Stderr outside the initialisers", Run: cmd11})
